@@ -4,29 +4,38 @@ From PK Require Import Base.Outcome Base.Machine Base.Reach Gen.Types Impl Syn.S
 Import ListNotations.
 Local Open Scope N_scope.
 Notation I := syn_set2.
-Notation s0 := (ScancodeSet2_mk DecodeState_Start).
 Notation key := ScancodeSet2_hash.
 
-Lemma inv : inv_C07 I key s0 = true. Proof. vm_compute. reflexivity. Qed.
-Lemma res : resets_C07 I key s0 = true. Proof. vm_compute. reflexivity. Qed.
-Lemma quiet : quiet_C07 I key s0 3 = true. Proof. vm_compute. reflexivity. Qed.
+Lemma inv : at_init I false (fun s0 => inv_C07 I key s0) = true. Proof. vm_compute. reflexivity. Qed.
+Lemma res : at_init I false (fun s0 => resets_C07 I key s0) = true. Proof. vm_compute. reflexivity. Qed.
+Lemma quiet : at_init I false (fun s0 => quiet_C07 I key s0 3) = true. Proof. vm_compute. reflexivity. Qed.
 (* the bound is tight: 2 consecutive silent answers do occur *)
-Lemma quiet_tight : quiet_C07 I key s0 2 = false. Proof. vm_compute. reflexivity. Qed.
+Lemma quiet_tight : at_init I true (fun s0 => quiet_C07 I key s0 2) = false. Proof. vm_compute. reflexivity. Qed.
 
-Theorem C07_resync : forall h b t, Forall byte (h ++ [b]) -> Forall byte t ->
+(* stated for the decoder's own initial state s0, whatever fields it has *)
+Theorem C07_resync : forall s0, sc_init I = Ret s0 ->
+  forall h b t, Forall byte (h ++ [b]) -> Forall byte t ->
   forall sh oh o, run (scan_machine I) s0 (h ++ [b]) = Ret (sh, oh ++ [o]) -> List.length oh = List.length h ->
   silent_sc o = false ->
   sh = s0 /\
   run (scan_machine I) s0 ((h ++ [b]) ++ t) =
     match run (scan_machine I) s0 t with Ret (s', ot) => Ret (s', (oh ++ [o]) ++ ot) | Panic => Panic end.
-Proof. exact (C07_resync_sound I key s0 inv res). Qed.
+Proof.
+  intros s0 Hi. pose proof inv as Hv. pose proof res as Hr.
+  rewrite (at_init_elim _ I _ _ s0 Hi) in Hv. rewrite (at_init_elim _ I _ _ s0 Hi) in Hr. exact (C07_resync_sound I key s0 Hv Hr).
+Qed.
 
-Theorem C07_silence : forall h b, Forall byte h -> Forall byte b -> List.length b = 3%nat ->
+Theorem C07_silence : forall s0, sc_init I = Ret s0 ->
+  forall h b, Forall byte h -> Forall byte b -> List.length b = 3%nat ->
   exists sh oh s' ob, run (scan_machine I) s0 h = Ret (sh, oh) /\ run (scan_machine I) sh b = Ret (s', ob) /\
                       existsb (fun o => negb (silent_sc o)) ob = true.
-Proof. exact (C07_silence_sound I key s0 inv 3 quiet). Qed.
+Proof.
+  intros s0 Hi. pose proof inv as Hv. pose proof quiet as Hq.
+  rewrite (at_init_elim _ I _ _ s0 Hi) in Hv. rewrite (at_init_elim _ I _ _ s0 Hi) in Hq. exact (C07_silence_sound I key s0 Hv 3 Hq).
+Qed.
+Example init_exists : exists s0, sc_init I = Ret s0. Proof. eexists; reflexivity. Qed.
 
 Print Assumptions C07_resync.
 Print Assumptions C07_silence.
-Eval vm_compute in ("states"%string, N.of_nat (List.length (sc_states I key s0))).
-Eval vm_compute in ("evaluations"%string, 256 * N.of_nat (List.length (sc_states I key s0))).
+Eval vm_compute in ("states"%string, at_init I 0%N (fun s0 => N.of_nat (List.length (sc_states I key s0)))).
+Eval vm_compute in ("evaluations"%string, at_init I 0%N (fun s0 => 256 * N.of_nat (List.length (sc_states I key s0)))).
